@@ -183,8 +183,12 @@ func (s *sim) run() *core.Violation {
 		if layer2() && len(s.regs) >= 2 {
 			wConc = 14
 		}
+		wOver := 0
+		if len(s.regs) >= 2 {
+			wOver = 9
+		}
 		var v *core.Violation
-		switch r.Weighted([]int{wConn, wReg, wRev, wJump, wConc}, "op") {
+		switch r.Weighted([]int{wConn, wReg, wRev, wJump, wConc, wOver}, "op") {
 		case 0:
 			v = s.opConnect(skip)
 		case 1:
@@ -195,6 +199,8 @@ func (s *sim) run() *core.Violation {
 			s.opJump(skip)
 		case 4:
 			v = s.opConcurrent(skip)
+		case 5:
+			v = s.opOverlap(skip)
 		}
 		if v != nil {
 			return v
